@@ -240,6 +240,59 @@ impl Exec {
         }
     }
 
+    /// C03: poll the combinator again *after* it produced its final result.
+    /// That is outside the Future/Stream contract, so the combinator may panic
+    /// or answer anything; the only thing judged is that it polls no child
+    /// (Q, recorded by the children themselves).
+    pub fn poll_post(&mut self) {
+        if self.dropped || self.panicked || !self.finished || self.inconclusive.is_some() {
+            return;
+        }
+        if matches!(self.top, Some(Top::G(_)) | None) {
+            return;
+        }
+        let flag = fresh_flag();
+        world::with(|w| {
+            w.in_top_poll = true;
+            w.polls_in_top = 0;
+            if w.trace_on {
+                w.trace.push(" POLL after the final result (its answer is not judged, only child polls are)".into());
+            }
+        });
+        let waker: Waker = flag.into();
+        let mut cx = Context::from_waker(&waker);
+        let top = self.top.as_mut().unwrap();
+        let held = &mut self.held;
+        let held_r = &mut self.held_r;
+        let r = catch_unwind(AssertUnwindSafe(|| match top {
+            Top::F(f) => {
+                if let Poll::Ready(v) = f.as_mut().poll(&mut cx) {
+                    held.push(v);
+                }
+            }
+            Top::R(f) => {
+                if let Poll::Ready(v) = f.as_mut().poll(&mut cx) {
+                    held_r.push(v);
+                }
+            }
+            Top::S(s) => {
+                if let Poll::Ready(Some(v)) = s.as_mut().poll_next(&mut cx) {
+                    held.push(v);
+                }
+            }
+            Top::G(_) => {}
+        }));
+        world::with(|w| w.in_top_poll = false);
+        if let Err(e) = r {
+            if e.is::<Runaway>() {
+                self.inconclusive = Some("runaway: a child was polled more than 20000 times inside one poll");
+            }
+            // a panic ("polled after completion") is acceptable behaviour;
+            // the combinator is only dropped from here on
+            self.panicked = true;
+        }
+    }
+
     pub fn drop_top(&mut self) {
         if self.dropped {
             return;
@@ -276,7 +329,8 @@ impl Exec {
                         "{} still alive after the drop of the combinator that was given it returned",
                         w.path(i)
                     );
-                    w.violate(Oracle::D, m);
+                    let f = w.owner_family(i);
+                    w.violate_f(Oracle::D, f, m);
                 }
             }
         });
@@ -488,6 +542,9 @@ pub fn run_case(case: &Case, std_cfg: bool, trace: bool) -> RunOut {
     } else if !case.no_drain {
         let bound = case.root.script_steps() * 4 + 64;
         quiescent = ex.drain(&case.drain, bound);
+    }
+    for _ in 0..case.post_polls {
+        ex.poll_post();
     }
     let dropped_early = ex.dropped;
     let top = ex.top_id;
